@@ -11,6 +11,7 @@
  */
 #include <event2/event.h>
 #include <event2/thread.h>
+#include <event2/util.h>
 #include <pthread.h>
 #include <stdatomic.h>
 #include <sched.h>
@@ -27,7 +28,9 @@ static struct event_base *base;
 static struct event *ev[MAXEV + 2], *far_timer;
 static atomic_long stamp;
 static atomic_int running[MAXEV + 2], sentinel_ran, loop_done;
-static int cbus, yield_pct;
+static int cbus, yield_pct, react;
+static atomic_int unresolved[MAXEV + 2], reacted[MAXEV + 2];
+static int iopipe[2];
 struct rec { long s; int t; const char *k; const char *op; int e; };
 static struct rec logbuf[MAXLOG];
 static atomic_int nlog;
@@ -99,7 +102,15 @@ static void cb(evutil_socket_t fd, short what, void *arg)
 {
 	int e = (int)(intptr_t)arg;
 	atomic_store(&running[e], 1);
+	atomic_store(&unresolved[e], 0);
 	logev("CbBegin", "", e);
+	if (react && !atomic_exchange(&reacted[e], 1)) {
+		/* the callback re-activates its own event once (an arm made from the loop thread) */
+		logev("Call", "active", e);
+		atomic_store(&unresolved[e], 1);
+		event_active(ev[e], EV_READ, 1);
+		logev("Ret", "active", e);
+	}
 	spin_us(cbus);
 	logev("CbEnd", "", e);
 	atomic_store(&running[e], 0);
@@ -131,9 +142,16 @@ static void *worker(void *arg)
 			continue;
 		}
 		if (!strcmp(o, "sleep")) { usleep((useconds_t)j_int(op, "us", 100)); continue; }
+		if (o[0] == 'd') atomic_store(&unresolved[e], 0);
 		logev("Call", o, e);
-		if (!strcmp(o, "add")) { struct timeval tv = {0, 1500}; event_add(ev[e], &tv); }
-		else if (!strcmp(o, "active")) event_active(ev[e], EV_READ, 1);
+		if (!strcmp(o, "add")) {
+			/* events 1,2: pure timers (1.5 ms); events 3,4: readable-pipe I/O events with a two-hour
+			 * timeout (not the heap minimum: only the backend change can make the loop notice) */
+			struct timeval tv = {0, 1500}, two_h = {7200, 0};
+			event_add(ev[e], e >= 3 ? &two_h : &tv);
+			atomic_store(&unresolved[e], 1);
+		}
+		else if (!strcmp(o, "active")) { event_active(ev[e], EV_READ, 1); atomic_store(&unresolved[e], 1); }
 		else if (!strcmp(o, "del")) event_del(ev[e]);
 		else if (!strcmp(o, "del_block")) event_del_block(ev[e]);
 		else if (!strcmp(o, "del_noblock")) event_del_noblock(ev[e]);
@@ -154,11 +172,24 @@ static void run_scenario(jval *sc)
 	int i, nw = progs ? (int)progs->n : 0, lost = 0, stuck = 0, k, n;
 	unsigned seed = (unsigned)j_int(cfg, "seed", 1);
 
+	struct event_config *ec = event_config_new();
+	const char *backend = j_str(cfg, "backend", "epoll");
+	static const char *methods[] = {"epoll", "poll", "select", NULL};
 	cbus = (int)j_int(cfg, "cbus", 300);
+	react = (int)j_int(cfg, "react", 0);
 	yield_pct = (int)j_int(cfg, "yield", 30);
 	atomic_store(&stamp, 1); atomic_store(&nlog, 0); atomic_store(&sentinel_ran, 0); atomic_store(&loop_done, 0);
-	base = event_base_new();
-	for (i = 1; i <= MAXEV; i++) { ev[i] = event_new(base, -1, 0, cb, (void *)(intptr_t)i); atomic_store(&running[i], 0); }
+	for (i = 0; methods[i]; i++) if (strcmp(methods[i], backend)) event_config_avoid_method(ec, methods[i]);
+	if (j_int(cfg, "changelist", 0)) event_config_set_flag(ec, EVENT_BASE_FLAG_EPOLL_USE_CHANGELIST);
+	base = event_base_new_with_config(ec);
+	event_config_free(ec);
+	if (pipe(iopipe) < 0 || write(iopipe[1], "x", 1) != 1) { perror("pipe"); exit(3); }
+	evutil_make_socket_nonblocking(iopipe[0]);
+	for (i = 1; i <= MAXEV; i++) {
+		ev[i] = i >= 3 ? event_new(base, iopipe[0], EV_READ, cb, (void *)(intptr_t)i)
+			       : event_new(base, -1, 0, cb, (void *)(intptr_t)i);
+		atomic_store(&running[i], 0); atomic_store(&unresolved[i], 0); atomic_store(&reacted[i], 0);
+	}
 	ev[MAXEV + 1] = event_new(base, -1, 0, sentinel_cb, NULL);
 	far_timer = event_new(base, -1, 0, far_cb, NULL);
 	event_add(far_timer, &hour);   /* the "unrelated timeout": the loop sleeps for an hour unless woken */
@@ -174,7 +205,16 @@ static void run_scenario(jval *sc)
 		if (pthread_timedjoin_np(wt[i], NULL, &ts) != 0) { stuck = 1; }
 	}
 	if (!stuck) {
-		usleep(8000); /* short timers (1.5 ms) have elapsed by now */
+		/* Nothing pokes the loop now: every arm made by the workers must be acted on by the loop on its
+		 * own (within a generous 3 s; the loop otherwise sleeps on a one-hour timer). */
+		for (k = 0; k < 3000 && !atomic_load(&loop_done); k++) {
+			int any = 0;
+			for (i = 1; i <= MAXEV; i++) any |= atomic_load(&unresolved[i]);
+			if (!any) break;
+			usleep(1000);
+		}
+		tid = 9;
+		logev("Quiet", "", 0);
 		if (!atomic_load(&loop_done)) {
 			int round;
 			tid = 9;
@@ -205,6 +245,7 @@ static void run_scenario(jval *sc)
 	for (i = 1; i <= MAXEV + 1; i++) event_free(ev[i]);
 	event_free(far_timer);
 	event_base_free(base);
+	close(iopipe[0]); close(iopipe[1]);
 }
 
 static void quiet_log(int sev, const char *msg) { (void)sev; (void)msg; }
